@@ -335,6 +335,8 @@ where
     }
 
     fn handle_event(&mut self, event: InternalEvent<'a>) -> HandleEventResponse {
+        #[cfg(nextest_verif)]
+        verif_tap_in::received(&event);
         match event {
             InternalEvent::Executor(ExecutorEvent::SetupScriptStarted {
                 script_id,
@@ -357,6 +359,8 @@ where
                         return HandleEventResponse::None;
                     }
                 }
+                #[cfg(nextest_verif)]
+                verif_tap_in::handshake_accepted();
                 self.new_setup_script(script_id.clone(), config, index, total, req_tx);
                 self.callback_none_response(TestEventKind::SetupScriptStarted {
                     index,
@@ -428,6 +432,8 @@ where
                         return HandleEventResponse::None;
                     }
                 }
+                #[cfg(nextest_verif)]
+                verif_tap_in::handshake_accepted();
                 self.new_test(test_instance, req_tx);
                 self.callback_none_response(TestEventKind::TestStarted {
                     test_instance,
@@ -488,6 +494,8 @@ where
                         return HandleEventResponse::None;
                     }
                 }
+                #[cfg(nextest_verif)]
+                verif_tap_in::handshake_accepted();
 
                 self.callback_none_response(TestEventKind::TestRetryStarted {
                     test_instance,
@@ -1970,5 +1978,179 @@ pub mod verif_dispatcher_loop {
             }
             Ok(steps)
         })
+    }
+}
+
+/// Verification hook H1b (`--cfg nextest_verif`): when `NEXTEST_VERIF_TAP=<file>` is set, append
+/// one JSON line (plain data, `"dir":"in"`) per event *received* by
+/// [`DispatcherContext::handle_event`] to the same file the event tap of hook H1 writes the
+/// *emitted* events to, and one `"kind":"Handshake"` line at the moment a start request
+/// (`Started` / `RetryStarted` / `SetupScriptStarted`) is answered positively (the oneshot was
+/// sent on); a start request not followed by such a line was refused (the sender was dropped).
+/// Both taps run synchronously on the dispatcher task, so the lines of one step appear in
+/// program order: received event, handshake (if accepted), emitted events.
+#[cfg(nextest_verif)]
+mod verif_tap_in {
+    use super::*;
+    use crate::reporter::events::ExecutionResult;
+    use serde_json::{Value, json};
+    use std::io::Write;
+
+    fn write(mut v: Value) {
+        let Ok(path) = std::env::var("NEXTEST_VERIF_TAP") else {
+            return;
+        };
+        v["dir"] = json!("in");
+        #[cfg(unix)]
+        {
+            // CLOCK_MONOTONIC, as in the tap of hook H1
+            let mut ts = libc::timespec {
+                tv_sec: 0,
+                tv_nsec: 0,
+            };
+            unsafe { libc::clock_gettime(libc::CLOCK_MONOTONIC, &mut ts) };
+            v["mono"] = json!(ts.tv_sec as f64 + ts.tv_nsec as f64 / 1e9);
+        }
+        if let Ok(mut f) = std::fs::OpenOptions::new()
+            .create(true)
+            .append(true)
+            .open(&path)
+        {
+            // one write per line
+            let _ = f.write_all(format!("{v}\n").as_bytes());
+        }
+    }
+
+    fn tid(t: &TestInstance<'_>) -> Value {
+        json!([t.suite_info.binary_id.as_str(), t.name])
+    }
+
+    fn result(r: &ExecutionResult) -> Value {
+        match r {
+            ExecutionResult::Pass => json!({"kind": "pass"}),
+            ExecutionResult::Leak => json!({"kind": "leak"}),
+            ExecutionResult::Fail {
+                abort_status,
+                leaked,
+            } => {
+                #[cfg(unix)]
+                let sig = abort_status
+                    .map(|crate::reporter::events::AbortStatus::UnixSignal(s)| s);
+                #[cfg(not(unix))]
+                let sig: Option<i32> = abort_status.map(|_| -1);
+                json!({"kind": "fail", "signal": sig, "leaked": leaked})
+            }
+            ExecutionResult::ExecFail => json!({"kind": "exec-fail"}),
+            ExecutionResult::Timeout => json!({"kind": "timeout"}),
+        }
+    }
+
+    fn status(s: &ExecuteStatus) -> Value {
+        json!({
+            "attempt": s.retry_data.attempt,
+            "total_attempts": s.retry_data.total_attempts,
+            "result": result(&s.result),
+            "is_slow": s.is_slow,
+        })
+    }
+
+    fn shutdown(e: &ShutdownEvent) -> &'static str {
+        match e {
+            #[cfg(unix)]
+            ShutdownEvent::Hangup => "hup",
+            #[cfg(unix)]
+            ShutdownEvent::Term => "term",
+            #[cfg(unix)]
+            ShutdownEvent::Quit => "quit",
+            ShutdownEvent::Interrupt => "int",
+        }
+    }
+
+    /// Called first thing in `handle_event`.
+    pub(super) fn received(event: &InternalEvent<'_>) {
+        if std::env::var_os("NEXTEST_VERIF_TAP").is_none() {
+            return;
+        }
+        let v = match event {
+            InternalEvent::Executor(e) => match e {
+                ExecutorEvent::SetupScriptStarted {
+                    script_id,
+                    index,
+                    total,
+                    ..
+                } => json!({"kind": "SetupScriptStarted", "script": script_id.0.as_str(),
+                    "index": index, "total": total}),
+                ExecutorEvent::SetupScriptSlow {
+                    script_id,
+                    will_terminate,
+                    ..
+                } => json!({"kind": "SetupScriptSlow", "script": script_id.0.as_str(),
+                    "will_terminate": will_terminate.is_some()}),
+                ExecutorEvent::SetupScriptFinished {
+                    script_id,
+                    index,
+                    total,
+                    status,
+                    ..
+                } => json!({"kind": "SetupScriptFinished", "script": script_id.0.as_str(),
+                    "index": index, "total": total, "result": result(&status.result),
+                    "is_slow": status.is_slow}),
+                ExecutorEvent::Started { test_instance, .. } => {
+                    json!({"kind": "Started", "test": tid(test_instance)})
+                }
+                ExecutorEvent::Slow {
+                    test_instance,
+                    retry_data,
+                    will_terminate,
+                    ..
+                } => json!({"kind": "Slow", "test": tid(test_instance),
+                    "attempt": retry_data.attempt, "total_attempts": retry_data.total_attempts,
+                    "will_terminate": will_terminate.is_some()}),
+                ExecutorEvent::AttemptFailedWillRetry {
+                    test_instance,
+                    run_status,
+                    ..
+                } => json!({"kind": "AttemptFailedWillRetry", "test": tid(test_instance),
+                    "status": status(run_status)}),
+                ExecutorEvent::RetryStarted {
+                    test_instance,
+                    retry_data,
+                    ..
+                } => json!({"kind": "RetryStarted", "test": tid(test_instance),
+                    "attempt": retry_data.attempt, "total_attempts": retry_data.total_attempts}),
+                ExecutorEvent::Finished {
+                    test_instance,
+                    last_run_status,
+                    ..
+                } => json!({"kind": "Finished", "test": tid(test_instance),
+                    "status": status(last_run_status)}),
+                ExecutorEvent::Skipped { test_instance, .. } => {
+                    json!({"kind": "Skipped", "test": tid(test_instance)})
+                }
+            },
+            InternalEvent::Signal(SignalEvent::Shutdown(e)) => {
+                json!({"kind": "Signal", "signal": "shutdown", "event": shutdown(e)})
+            }
+            #[cfg(unix)]
+            InternalEvent::Signal(SignalEvent::JobControl(JobControlEvent::Stop)) => {
+                json!({"kind": "Signal", "signal": "stop"})
+            }
+            #[cfg(unix)]
+            InternalEvent::Signal(SignalEvent::JobControl(JobControlEvent::Continue)) => {
+                json!({"kind": "Signal", "signal": "continue"})
+            }
+            InternalEvent::Signal(SignalEvent::Info(e)) => {
+                json!({"kind": "Signal", "signal": "info", "event": format!("{e:?}")})
+            }
+            InternalEvent::Input(InputEvent::Info) => json!({"kind": "Input", "input": "info"}),
+            InternalEvent::Input(InputEvent::Enter) => json!({"kind": "Input", "input": "enter"}),
+            InternalEvent::ReportCancel => json!({"kind": "ReportCancel"}),
+        };
+        write(v);
+    }
+
+    /// Called right after the oneshot carried by a start request has been sent on.
+    pub(super) fn handshake_accepted() {
+        write(json!({"kind": "Handshake", "outcome": "accepted"}));
     }
 }
